@@ -131,6 +131,73 @@ def coq_ops(ops):
     return '[' + '; '.join('(Append %s)' % vlib.zlist(o[1]) if o[0] == 'append' else 'Wake' for o in ops) + ']'
 
 
+class FlagEvent(object):
+    """threading.Event without blocking: wait() reports the flag."""
+    def __init__(self):
+        self.flag = False
+
+    def set(self):
+        self.flag = True
+
+    def clear(self):
+        self.flag = False
+
+    def is_set(self):
+        return self.flag
+
+    def wait(self, timeout=None):
+        return self.flag
+
+
+def busy_append_check(ctx, d, protos):
+    """A chunk handed over while the worker is inside a pass (here: from within its dispatcher call) must be decoded by a later
+    pass: the wake-up flag may not be lost."""
+    rng = ctx.rng
+    for p in protos:
+        k = dr.key_frames(p, rng)
+        k2 = dr.key_frames(p, rng)
+        if not k or not k2:
+            continue
+        A, B = list(k[1][0]), list(k2[1][0])
+        if len(A) < 6 or len(B) < 6 or A[-1] > -2000 or B[-1] > -2000 or len(A) + len(B) > 400:
+            continue
+        freq = p['frequency']
+        whole = run_ops(d, {p['name']}, freq, [('append', A + B), ('wake',)])
+        if whole[3] is not None or len(whole[0]) < 2:
+            continue                      # the one-shot feeding does not deliver both keys: nothing to compare with
+        d.reset()
+        d.set_enabled({p['name']})
+        st = Stream(d)
+        ev = FlagEvent()
+        st.th.buffer_event = ev
+        fired = []
+        inner = st.th.decoder._decode
+
+        def during(data, frequency, _inner=inner):
+            if not fired:
+                fired.append(1)
+                st.th.append(list(B), freq)           # the producer delivers the next chunk right now
+            return _inner(data, frequency)
+        st.th.decoder = type('D', (), {'_decode': staticmethod(during), '_decode_universal': staticmethod(lambda rlc, f: False)})()
+        err = None
+        passes = 0
+        try:
+            st.th.append(list(A), freq)
+            while ev.is_set() and passes < 10:
+                passes += 1
+                st.wake()
+        except Exception as e:  # noqa
+            err = type(e).__name__
+        codes = list(st.codes)
+        pending = st.pending()
+        d.reset()
+        ctx.count_eval(key=('busy-append', p['name'], tuple(A[:6]), tuple(B[:6])))
+        if err is None and codes != whole[0]:
+            ctx.report(p['name'], 'chunk appended while the worker is busy is not decoded', dict(passes=passes),
+                       dict(protocol=p['name'], first=A, second=B, delivered=codes, expected=whole[0], left_in_buffer=pending,
+                            wake_flag_set=ev.is_set()))
+
+
 def run(ctx):
     vlib.import_repo()
     vlib.ensure_static_build()
@@ -183,6 +250,8 @@ def run(ctx):
                                                                   for c, ok in got[1]) + ']', coq_ops(ops)),
                                   [y for c, ok in got[1] if ok for y in [len(c)] + c] + [-1] + got[2] + [-1, 0]))
                     meta.append((p['name'], wake_mode, stream, ops))
+    busy = ps if ctx.tier != 'quick' else rng.sample(ps, 30)
+    busy_append_check(ctx, d, busy)
     bad = vlib.run_model_cases(ctx, 'corr_stream', 'Require Import PyIR.Ctl.Stream.', 'run_stream', '(SLOG * list sop)',
                                cases, shard=60, timeout=900)
     if bad is None:
